@@ -12,5 +12,5 @@ export GOFLAGS=-mod=mod GOPROXY=off GOWORK=off
 mkdir -p "$tmp/.verif/evidence"
 cp known_findings.jsonl "$tmp/.verif/" 2>/dev/null
 for id in "$@"; do
-  ./bin/echverif -repo "$tmp" -verif "$tmp/.verif" quick "$id" | grep -v '^VIOLATION' | sed "s|^|[$id] |"
+  ${ECHVERIF:-./bin/echverif} -repo "$tmp" -verif "$tmp/.verif" quick "$id" | grep -v '^VIOLATION' | sed "s|^|[$id] |"
 done
